@@ -412,6 +412,17 @@ func (e *SpecEnv) eval(x SExpr) SVal {
 		if n.Forall {
 			q = "forall"
 		}
+		if len(n.Triggers) > 0 {
+			pats := ""
+			for _, ts := range n.Triggers {
+				var terms []string
+				for _, t := range ts {
+					terms = append(terms, c.eval(t).T)
+				}
+				pats += " :pattern (" + strings.Join(terms, " ") + ")"
+			}
+			body = "(! " + body + pats + ")"
+		}
 		return SVal{fmt.Sprintf("(%s (%s) %s)", q, strings.Join(binds, " "), body), stBool}
 	case *SField:
 		return e.evalField(n)
@@ -551,10 +562,12 @@ func (e *SpecEnv) evalIndex(n *SIndex) SVal {
 		if e.st == nil {
 			specFail("map lookup needs a state")
 		}
-		_, vals, _ := vc.sorts.mapHeaps(u)
-		vh := vc.heapVar(vals)
+		// Go semantics: the zero value when the key is absent (or the map is nil)
+		dom, vals, _ := vc.sorts.mapHeaps(u)
+		dh, vh := vc.heapVar(dom), vc.heapVar(vals)
 		k := e.eval(n.I)
-		return SVal{sel(sel(vc.get(e.st, vh), v.T), k.T), e.goST(u.Elem())}
+		has := andT(fmt.Sprintf("(not (= %s 0))", v.T), sel(sel(vc.get(e.st, dh), v.T), k.T))
+		return SVal{fmt.Sprintf("(ite %s %s %s)", has, sel(sel(vc.get(e.st, vh), v.T), k.T), vc.sorts.zero(u.Elem())), e.goST(u.Elem())}
 	}
 	if v.Ty.Sort == "Str" {
 		return SVal{fmt.Sprintf("(Str_at %s %s)", v.T, e.evalInt(n.I)), stInt}
@@ -738,10 +751,24 @@ func (e *SpecEnv) evalCall(n *SCall) SVal {
 	case "global":
 		// global(name): current value of the package-level variable `name` of the contract's package
 		id, ok := n.Args[0].(*SIdent)
-		if !ok || e.pkg == nil || e.frame == nil || e.st == nil {
+		gpkg := e.pkg
+		if !ok {
+			// global(pkg.Name)
+			if fe, isF := n.Args[0].(*SField); isF {
+				if pi, isI := fe.X.(*SIdent); isI && e.pkg != nil {
+					for _, imp := range e.pkg.Imports() {
+						if imp.Name() == pi.Name {
+							gpkg = imp
+							id, ok = &SIdent{fe.Name}, true
+						}
+					}
+				}
+			}
+		}
+		if !ok || gpkg == nil || e.frame == nil || e.st == nil {
 			specFail("global(name) not available here")
 		}
-		sp := vc.prog.Prog.Package(e.pkg)
+		sp := vc.prog.Prog.Package(gpkg)
 		if sp == nil {
 			specFail("global: package not loaded")
 		}
@@ -797,9 +824,9 @@ func (e *SpecEnv) evalCall(n *SCall) SVal {
 		vc.sorts.boxFn(t)
 		return SVal{fmt.Sprintf("(= (Iface_tag %s) %d)", arg(0).T, vc.sorts.tagOf(t)), stBool}
 	case "go_div":
-		return SVal{fmt.Sprintf("(go_div %s %s)", e.evalInt(n.Args[0]), e.evalInt(n.Args[1])), stInt}
+		return SVal{vc.goDiv(e.evalInt(n.Args[0]), e.evalInt(n.Args[1])), stInt}
 	case "go_mod":
-		return SVal{fmt.Sprintf("(go_mod %s %s)", e.evalInt(n.Args[0]), e.evalInt(n.Args[1])), stInt}
+		return SVal{vc.goMod(e.evalInt(n.Args[0]), e.evalInt(n.Args[1])), stInt}
 	}
 	if pf, ok := vc.db.Pures[n.Fn]; ok {
 		vc.usedPures[n.Fn] = true
